@@ -528,6 +528,13 @@ class Inputs:
             self.blocks = {k: W(v) for k, v in self.blocks.items()}
             if w["fmt"] != "blocked":
                 self.full = {o: W(v) for o, v in self.full.items()}
+        if not self.sym and w["domain"] == "sparse" and w.get("mixed_dense") and w["fmt"] != "implicit":
+            # some perturbation terms are handed over as dense arrays, others as sparse ones
+            pick = lambda n: (n * 2654435761 + w["vseed"]) % 3 == 0  # noqa: E731 - deterministic choice per term
+            if w["fmt"] == "blocked":
+                self.blocks = {k: (v.toarray() if (any(k[2:]) and pick(sum(k))) else v) for k, v in self.blocks.items()}
+            elif w["fmt"] != "nested":
+                self.full = {o: (v.toarray() if (any(o) and pick(sum(o))) else v) for o, v in self.full.items()}
         # sparse inputs are handed over in the caller's favourite formats (the harness itself works on CSR)
         if not self.sym and w["domain"] == "sparse" and w.get("sparse_fmts") and w["fmt"] != "implicit":
             from scipy import sparse
@@ -535,9 +542,9 @@ class Inputs:
             conv = {"csr": sparse.csr_array, "csc": sparse.csc_array, "coo": sparse.coo_array, "dia": sparse.dia_array}
             kinds = w["sparse_fmts"]
             if w["fmt"] == "blocked":
-                self.blocks = {k: conv[kinds[n % len(kinds)]](v) for n, (k, v) in enumerate(self.blocks.items())}
+                self.blocks = {k: (conv[kinds[n % len(kinds)]](v) if sparse.issparse(v) else v) for n, (k, v) in enumerate(self.blocks.items())}
             elif w["fmt"] != "nested":
-                self.full = {o: conv[kinds[n % len(kinds)]](v) for n, (o, v) in enumerate(self.full.items())}
+                self.full = {o: (conv[kinds[n % len(kinds)]](v) if sparse.issparse(v) else v) for n, (o, v) in enumerate(self.full.items())}
         # masks for selective diagonalisation
         self.masks = {}
         for c, comp in enumerate(w["comps"]):
@@ -1600,6 +1607,7 @@ class GraphProp:
              "zero_level": bool(nb >= 2 and domain in ("dense", "sparse") and r.random() < 0.12),
              "p_sparse": r.choice([0.0, 0.3, 0.5, 0.7]) if domain == "sparse" else 0.0,
              "sparse_fmts": r.choice([["csr"], ["csr"], ["csc"], ["coo", "csr"], ["csr", "dia", "csc"]]) if domain == "sparse" else None,
+             "mixed_dense": bool(domain == "sparse" and r.random() < 0.35),
              "atol": r.choice([None, None, None, 1e-10, 1e-14]), "stored_zeros": bool(domain == "sparse" and r.random() < 0.4),
              "view_input": r.random() < 0.15, "h_recur": r.random() < 0.15,
              "idx_type": r.choice(["array", "array", "tuple", "list"]), "sparse_vecs": r.random() < 0.3, "op_name": r.random() < 0.3, "sectors": bool(nb >= 3 and domain in ("dense", "sparse") and r.random() < 0.25),
@@ -1625,14 +1633,16 @@ class GraphProp:
                     spec["solver"] = "custom"
                 elif y < 0.25 and nb == 2 and ch:
                     spec["solver"] = "legacy"
-            if domain == "sparse" and spec["fd"] is not None:
-                spec["fd"] = None  # sparse solver divides by zero on kept pairs of a selected block (a C01 matter)
+            if domain == "sparse" and spec["fd"] is not None and r.random() < 0.5:
+                # the sparse solver branch divides by zero on kept pairs of a selected block (NaN results: a C01 matter);
+                # such worlds are kept in half of the cases - NaN must be history independent, too
+                spec["fd"] = None
             spec["d0_herm"] = r.random() < 0.5
             comps.append(spec)
         if ncomp >= 2 and r.random() < profile.get("p_chain", 0.2) and fmt != "scalar_vecs" or (ncomp >= 2 and profile.get("p_chain", 0.2) >= 1):
             comps[-1] = {"herm": comps[0]["herm"], "fd": sorted(range(nb)) if r.random() < 0.7 else None,
                          "solver": "default", "chain": 0, "d0_herm": False}
-            if domain == "sparse":
+            if domain == "sparse" and r.random() < 0.5:
                 comps[-1]["fd"] = None
         if fmt == "sympy_expr":
             w["p_zero_block"] = 0.0  # a vanishing term would remove its symbol from the expression
